@@ -129,18 +129,26 @@ func c15Pair(c *Ctx) {
 			if _, isArr := al.Type().(*types.Pointer).Elem().Underlying().(*types.Array); !isArr {
 				return
 			}
-			k, ok := ia.Index.(*ssa.Const)
-			if !ok {
-				return
-			}
 			cl, ok := st.Val.(*ssa.Call)
 			if !ok || p.CalleeName(&cl.Call) != "client.setPartitionCache" || len(cl.Call.Args) != 3 {
 				return
 			}
-			if kk, ok := cl.Call.Args[2].(*ssa.Const); ok && kk.Int64() == k.Int64() {
-				if arr == nil || arr == al {
-					arr = al
-					slots[k.Int64()] = cl.Call.Args[1]
+			if k, ok := ia.Index.(*ssa.Const); ok {
+				if kk, ok := cl.Call.Args[2].(*ssa.Const); ok && kk.Int64() == k.Int64() {
+					if arr == nil || arr == al {
+						arr = al
+						slots[k.Int64()] = cl.Call.Args[1]
+					}
+				}
+				return
+			}
+			// cache[t] = setPartitionCache(topic, t) in a loop over a literal list of the partition sets
+			if elems := literalRangeElems(Info(fn), cl.Call.Args[2]); elems != nil && samePath(ia.Index, cl.Call.Args[2]) {
+				for _, e := range elems {
+					if k, ok := strip(e).(*ssa.Const); ok && (arr == nil || arr == al) {
+						arr = al
+						slots[k.Int64()] = cl.Call.Args[1]
+					}
 				}
 			}
 		})
